@@ -173,7 +173,11 @@ func (u *Unit) oblige(st *State, kind, label string, goal Term, pos token.Pos) {
 		name += ":" + label
 	}
 	g := tImp(u.curGuard(), goal)
-	o := &Obligation{Name: name, Kind: kind, Func: root.name, Goal: g, PC: st.pc[:len(st.pc):len(st.pc)], Where: u.where(pos), Trace: st.trace, Expect: "unsat", Inputs: root.inputs}
+	pc := st.pc[:len(st.pc):len(st.pc)]
+	if kind == "dec" && len(st.decPC) > 0 {
+		pc = append(append([]Term{}, st.pc...), st.decPC...)
+	}
+	o := &Obligation{Name: name, Kind: kind, Func: root.name, Goal: g, PC: pc, Where: u.where(pos), Trace: st.trace, Expect: "unsat", Inputs: root.inputs}
 	root.obls = append(root.obls, o)
 }
 
